@@ -11,6 +11,7 @@ import GT.Lemmas.Irrep.N3Det
 import GT.Properties.C17_n4
 import GT.Properties.C17_n5
 import GT.Properties.C17_n6
+import GT.Properties.C17_nd
 import GT.Lemmas.So31
 import GT.Lemmas.So31Det
 import Mathlib.LinearAlgebra.Matrix.NonsingularInverse
